@@ -1289,6 +1289,9 @@ impl Lexer<'_> {
                     try_lexing_numeric = false;
                     ws_mark = None;
                     self.cursor.advance();
+
+                    // We've just consumed a letter, so a mnemonic may not follow immediately
+                    may_precede_mnemonic = false;
                 }
                 _ => {
                     // Not a terminator, just a regular character in the string
